@@ -22,6 +22,7 @@ o == Obs.core[i]
 cx == Obs.ctx[o.c]              \* kind, media, wantMethod, basePath, tmpl, wantCtype
 odef == Obs.defs[o.d]
 oval == Obs.vals[o.v]
+obval == Obs.vals[o.bv]          \* the value the body carries (the element's value, or the fixed payload of a derived coverage case)
 
 (* URL = base URL joined with the template: segments of the base path, then the template's segments *)
 VarSeg == <<123, 112, 125>>                           \* "{p}"
@@ -34,7 +35,8 @@ HasVar == \E j \in 1..Len(WantSegs) : WantSegs[j] = VarSeg
 (* When the parameter lives in the path, a wrong number of segments is the parameter's failure (its value swallowed or   *)
 (* added segments), reported under `param`; a path value outside the fragment changes the structure by definition.       *)
 InPath == cx.kind # "body" /\ odef.loc = "path"
-UrlV == IF InPath /\ Fragment(odef, oval) # "T" THEN "U"
+Frag == FragmentAt(odef, oval, o.x, o.pm)
+UrlV == IF InPath /\ Frag # "T" THEN "U"
         ELSE IF ~StructOK THEN (IF InPath THEN "T" ELSE "F:structure")
         ELSE IF ~LiteralsOK THEN "F:literal" ELSE "T"
 
@@ -42,7 +44,7 @@ W == [seg |-> IF StructOK /\ HasVar THEN GotSegs[VarIdx] ELSE <<>>, pmode |-> o.
       hpresent |-> o.hp, hval |-> o.hv, cpresent |-> o.cp, cookie |-> o.ck]
 ParamV == IF cx.kind = "body" THEN [v |-> "T", why |-> ""]
           ELSE IF odef.loc = "path" /\ ~StructOK
-               THEN (IF Fragment(odef, oval) # "T" THEN [v |-> "U", why |-> Fragment(odef, oval)] ELSE [v |-> "F", why |-> "structure"])
+               THEN (IF Frag # "T" THEN [v |-> "U", why |-> Frag] ELSE [v |-> "F", why |-> "structure"])
           ELSE ParamVerdict(odef, oval, W, o.x)
 (* nothing else: no query string unless the parameter lives there *)
 ExtraV == IF (cx.kind = "body" \/ odef.loc # "query") /\ o.q # <<>> THEN "F" ELSE "T"
@@ -59,10 +61,10 @@ FormPairs == LET kv == QParts(o.b)
 BodyV == CASE cx.media = "none" -> IF o.b = <<>> THEN "T" ELSE "F"
            [] Multipart -> "U"                       \* the multipart encoding is outside the fragment
            [] cx.media = "json" -> LET j == JsonParse(BodyText.t)
-                                   IN  IF ~BodyText.bad /\ j.ok /\ SameTyped(j.val, oval) THEN "T" ELSE "F"
-           [] cx.media = "form" -> IF \E j \in 1..Len(oval.items) : oval.items[j].t \in {"bool", "null"} THEN "U"
-                                   ELSE IF In(FormPairs, Expected(oval)) THEN "T" ELSE "F"
-           [] OTHER -> IF ~BodyText.bad /\ BodyText.t = Coerce(oval.items[1]) THEN "T" ELSE "F"
+                                   IN  IF ~BodyText.bad /\ j.ok /\ SameTyped(j.val, obval) THEN "T" ELSE "F"
+           [] cx.media = "form" -> IF \E j \in 1..Len(obval.items) : obval.items[j].t \in {"bool", "null"} THEN "U"
+                                   ELSE IF In(FormPairs, Expected(obval)) THEN "T" ELSE "F"
+           [] OTHER -> IF ~BodyText.bad /\ BodyText.t = Coerce(obval.items[1]) THEN "T" ELSE "F"
 
 (* ---- envelope ---- *)
 e == Obs.env[i]
